@@ -81,10 +81,16 @@ func allWords(alpha []int, maxLen int, withEmpty bool) []string {
 }
 
 // completionLine drives the real auto-complete callback of repl/completion.go.
-func completionLine(ac *repl.AutoComplete, line string) (string, int, bool, string) {
+// (a panic of the callback is an answer like any other - a wrong one: it is reported as the completed line.)
+func completionLine(ac *repl.AutoComplete, line string) (nl string, np int, ok bool, out string) {
 	var buf bytes.Buffer
 	t := &terminal.Terminal{Out: &buf}
-	nl, np, ok := ac.AutoComplete()(t, line, len(line), '\t')
+	defer func() {
+		if r := recover(); r != nil {
+			nl, np, ok, out = fmt.Sprintf("\x00the completion callback panicked: %v", r), -1, true, buf.String()
+		}
+	}()
+	nl, np, ok = ac.AutoComplete()(t, line, len(line), '\t')
 	return nl, np, ok, buf.String()
 }
 
